@@ -61,6 +61,12 @@ def plan(tier):
     p.append((S.T2(own={"net2": S.VM1_CHAIN[:2]}, O=S.PF).variant("/own(net2)=install+customize"), 1, 1))
     # dry run
     p.append((S.T2(params={"dry_run": "yes"}).variant("/dry_run"), 1, 0.5))
+    # a dry run under every other setting that makes the traversal touch states or retry: nothing is executed, no state is changed
+    for tag, pr, kw in (("pool_filter=copy", {"pool_filter": "copy"}, {}), ("pool_filter=block", {"pool_filter": "block"}, {}), ("mt=2", {"max_tries": 2}, {}),
+                        ("scope=own+shared", {"pool_scope": "own shared"}, {}), ("shared=chain,pool_filter=copy", {"pool_filter": "copy"}, {"shared": S.VM1_CHAIN}),
+                        ("lazy,pool_filter=copy", {"pool_filter": "copy"}, {"lazy": True}), ("replay", {"replay": "job1"}, {})):
+        p.append((S.T2(params=dict(pr, dry_run="yes"), **kw).variant(f"/dry_run,{tag}"), 0 if q else 1, 0.3))
+    p.append((S.G1(params={"dry_run": "yes", "pool_filter": "copy"}).variant("/dry_run,pool_filter=copy"), 0, 0.3))
     p.append((S.T1("net0", O=O5).variant("/serial"), 1 if q else 2, 0.5))
     p.append((S.G1(O=S.PF), 0 if q else 1, 3))
     p.append((S.G2(O=S.PF), 0 if q else 1, 3))
